@@ -31,7 +31,8 @@ CONSTANTS MaxReq,        \* requests per history
           FinalValid,    \* TRUE: the last request of a history is the valid one
           QCap,          \* max_ind_queue_size (0 = unbounded)
           Gating,        \* the tester may hold the callback once per history
-          QfRet          \* `return` after the queue.Full error response
+          QfRet,         \* `return` after the queue.Full error response
+          LexG           \* guards of the reader's conversions: full|eol|prefix
 
 VARIABLES hist,      \* request classes sent so far (one connection each)
           conn,      \* per connection: [st, obs, env, forced];
@@ -44,7 +45,7 @@ VARIABLES hist,      \* request classes sent so far (one connection each)
                      \* peerclose(request number)
 vars == <<hist, conn, queue, delivered, gate, inflight, script>>
 
-Fl == [san |-> San, clchk |-> ClChk, qfret |-> QfRet]
+Fl == [san |-> San, clchk |-> ClChk, qfret |-> QfRet, lexg |-> LexG]
 
 Init == /\ hist = << >> /\ conn = << >> /\ queue = << >> /\ delivered = << >>
         /\ gate = "open" /\ inflight = 0 /\ script = << >>
@@ -247,9 +248,17 @@ QueueTiny == {ValidReq,
               [ValidReq EXCEPT !.body = "dupParam"],
               [ValidReq EXCEPT !.body = "unknownMethod"]}
 
+(* every lexeme class at every converted position, everything else valid;  *)
+(* the same with one more deviation                                        *)
+LexAlone == UNION {{[ValidReq EXCEPT !.body = LexBodyOf(p, x),
+                                     !.lpos = p, !.lex = x] : x \in LexAt[p]}
+                   : p \in LexPositions}
+AroundBase(b) == Around(b) \ {[b EXCEPT !.body = v] : v \in Bodies \ {b.body}}
+LexUpTo2 == UNION {AroundBase(c) : c \in LexAlone}
+
 (* class lists for the harness (printed once by the Emit configuration)    *)
 Tup(c) == <<c.verb, c.accept, c.charset, c.range, c.ctype, c.cenc, c.clen,
-            c.body>>
+            c.body, c.lpos, c.lex>>
 
 (* tester scripts of complete histories in which the model's listener      *)
 (* takes the queue.Full branch for an indication because the tester holds  *)
@@ -267,4 +276,6 @@ ScriptTup == [k \in DOMAIN script |->
 InvEmitScripts == (Complete /\ HitFull) => PrintT(<<"SCR", ScriptTup>>)
 EmitClasses == PrintT(<<"CLS1", {Tup(c) : c \in UpTo1}>>)
                /\ PrintT(<<"CLS2", {Tup(c) : c \in UpTo2 \ UpTo1}>>)
+               /\ PrintT(<<"LEX1", {Tup(c) : c \in LexAlone}>>)
+               /\ PrintT(<<"LEX2", {Tup(c) : c \in LexUpTo2 \ LexAlone}>>)
 =============================================================================
